@@ -10,7 +10,7 @@ git -C /repo apply "$PATCH" || { echo "PATCH-DOES-NOT-APPLY $PATCH"; exit 3; }
 git -C /repo checkout -- .
 python3 tools/extract.py > /dev/null
 cp /tmp/evidence_$PID.bak evidence/$PID.json 2>/dev/null
-grep -E "^VIOLATION|obligations|KNOWN" /tmp/seedtest.out | head -5
+grep -a -E "^VIOLATION|obligations|KNOWN" /tmp/seedtest.out | head -5
 rm -rf replays/$PID
 echo "seedtest $PID $(basename $(dirname $PATCH))/$(basename $PATCH): exit=$rc"
 exit $rc
